@@ -94,6 +94,16 @@ def run(ctx):
             pubs.append(("epoch", a.block, a.line))
         if a.cell == ("grafeo_engine::transaction::manager::TxInfo", "state") and a.kind == "W" and a.how == "assign":
             pubs.append(("state", a.block, a.line))
+    # publication moved into a helper of the manager: the call is the publication site
+    for bi, t in commit.calls():
+        g = P.fns.get(callee_name(t))
+        if g is not None and g.id != commit.id and g.krate == commit.krate:
+            W, _ = eff.closure_sets([g])
+            if ("grafeo_engine::transaction::manager::TxInfo", "state") in W and not any(k == "state" for k, _, _ in pubs):
+                pubs.append(("state", bi, t["line"]))
+            if ("grafeo_engine::transaction::manager::TransactionManager", "current_epoch") in W and not any(k == "epoch" for k, _, _ in pubs) \
+                    and any(a.kind == "RMW" and a.cell[1] == "current_epoch" for h in P.reach([g]) for a in eff.own_acc(P.fns[h])):
+                pubs.append(("epoch", bi, t["line"]))
     ctx.floor("R3", len(pubs), 2, "publication sites (epoch RMW, state assignment) in commit")
     errs = [x[0] for x in find_aggregates(commit, "TransactionError", "WriteConflict")] + \
            [x[0] for x in find_aggregates(commit, "TransactionError", "SerializationFailure")]
